@@ -10,7 +10,9 @@ VARIABLES cfg, now, st, started, nextAt, failed, q, att, ngate, ev
 vars == <<cfg, now, st, started, nextAt, failed, q, att, ngate, ev>>
 view == <<cfg, now, st, started, nextAt, failed, q, att, ngate>>
 \* att: sequence over gate ids of records [c, k, s] with s in "pending" / "ok" / "e1" (resolved and delivered)
-Delay(k) == IF cfg.mode = "fixed" THEN cfg.d ELSE IF cfg.mode = "dyn" THEN (IF k = 1 THEN 2 ELSE 1) ELSE 0
+\* "dyn0": a delay function that is zero from the second hedge on - those hedges start together with the first one
+Delay(k) == IF cfg.mode = "fixed" THEN cfg.d ELSE IF cfg.mode = "dyn" THEN (IF k = 1 THEN 2 ELSE 1)
+            ELSE IF cfg.mode = "dyn0" THEN (IF k = 1 THEN 2 ELSE 0) ELSE 0
 Par == cfg.mode = "par" \/ cfg.max = 1
 \* cfg.blk = 1: the wrapped service's further clones never become ready (back-pressure): hedge attempts are
 \* launched but never reach the wrapped service, and never fail either; the primary alone decides
@@ -64,12 +66,13 @@ Poll(c) ==
              /\ ev' = [e |-> "poll", c |-> c, t |-> now, res |-> "err", kind |-> "allfailed", ns |-> 0]
              /\ UNCHANGED <<started, nextAt, failed, att, ngate>>
         ELSE IF ~Par /\ started[c] < cfg.max /\ now >= nextAt[c]
-        THEN \* the delay since the previous start is over: next hedge
-             /\ IF Blk THEN UNCHANGED <<att, ngate>> ELSE (att' = att \o NewAtts(c, started[c], 1) /\ ngate' = ngate + 1)
-             /\ started' = [started EXCEPT ![c] = @ + 1] /\ nextAt' = [nextAt EXCEPT ![c] = now + Delay(started[c] + 1)]
+        THEN \* the delay since the previous start is over: next hedge (and every further one whose own delay is zero)
+             LET n == IF cfg.mode = "dyn0" THEN cfg.max - started[c] ELSE 1 IN
+             /\ IF Blk THEN UNCHANGED <<att, ngate>> ELSE (att' = att \o NewAtts(c, started[c], n) /\ ngate' = ngate + n)
+             /\ started' = [started EXCEPT ![c] = @ + n] /\ nextAt' = [nextAt EXCEPT ![c] = now + Delay(started[c] + n)]
              /\ failed' = [failed EXCEPT ![c] = nf] /\ q' = [q EXCEPT ![c] = <<>>]
              /\ ev' = (IF Blk THEN [e |-> "poll", c |-> c, t |-> now, res |-> "pending", ns |-> 0]
-                       ELSE [e |-> "poll", c |-> c, t |-> now, res |-> "pending", ns |-> 1, si |-> ngate + 1, sc |-> c])
+                       ELSE [e |-> "poll", c |-> c, t |-> now, res |-> "pending", ns |-> n, si |-> ngate + 1, sc |-> c])
              /\ UNCHANGED st
         ELSE /\ failed' = [failed EXCEPT ![c] = nf] /\ q' = [q EXCEPT ![c] = <<>>]
              /\ ev' = [e |-> "poll", c |-> c, t |-> now, res |-> "pending", ns |-> 0]
